@@ -1351,6 +1351,14 @@ static int cfg_parse_internal(cfg_t *cfg, int level, int force_state, cfg_opt_t 
 			return STATE_EOF;
 		}
 
+		/*
+		 * Comments may appear between any two tokens.  Only a comment
+		 * read while an option name is expected (state 0) can become
+		 * an annotation.
+		 */
+		if (tok == CFGT_COMMENT && state != 0)
+			continue;
+
 		switch (state) {
 		case 0:	/* expecting an option name */
 			if (opt && is_set(CFGF_DEPRECATED, opt->flags))
